@@ -110,6 +110,8 @@ pub struct DicParams {
     pub escapes: bool,
     /// first system entry is a 名詞,数詞 row (needed by JoinNumeric), second has POS_NOUN, third POS_SYM
     pub anchor_pos: bool,
+    /// strings and arrays at the format boundaries (126/127/128 UTF-16 units, 126/127 items)
+    pub boundaries: bool,
     /// keep ',' and '.' out of normalised forms that differ from the key (input class of known finding F12)
     pub avoid_f12: bool,
 }
@@ -131,7 +133,8 @@ impl DicParams {
             inline_refs: true,
             escapes: false,
             anchor_pos: true,
-            avoid_f12: true,
+            avoid_f12: false,
+            boundaries: false,
         }
     }
 }
@@ -156,6 +159,16 @@ fn base_spec(p: &DicParams) -> BoxedStrategy<BaseSpec> {
     let alpha = p.alphabet.clone();
     let key = vec(select(alpha.clone()), 1..=p.max_key_chars).prop_map(|v| v.concat());
     let other = vec(select(alpha), 1..=3).prop_map(|v| v.concat());
+    let (key, other) = if p.boundaries {
+        (prop_oneof![6 => key, 1 => boundary_string()].boxed(), prop_oneof![3 => other, 1 => boundary_string()].boxed())
+    } else {
+        (key.boxed(), other.boxed())
+    };
+    let syn = if p.boundaries {
+        prop_oneof![8 => vec(prop_oneof![0u32..10, any::<u32>()], 0..3), 1 => vec(any::<u32>(), 126..=127)].boxed()
+    } else {
+        vec(prop_oneof![0u32..10, any::<u32>()], 0..3).boxed()
+    };
     let esc = if p.escapes { prop_oneof![4 => Just(0u8), 1 => Just(1u8), 1 => Just(2u8)].boxed() } else { Just(0u8).boxed() };
     (
         key,
@@ -168,7 +181,7 @@ fn base_spec(p: &DicParams) -> BoxedStrategy<BaseSpec> {
         other.clone(),
         other,
         prop::option::weighted(0.25, any::<u16>()),
-        vec(prop_oneof![0u32..10, any::<u32>()], 0..3),
+        syn,
         esc,
     )
         .prop_map(|(key, left, right, cost, pos, non_indexed, form_sel, reading, norm, dic_form, syn, esc)| BaseSpec {
@@ -188,6 +201,16 @@ fn base_spec(p: &DicParams) -> BoxedStrategy<BaseSpec> {
         .boxed()
 }
 
+/// strings whose UTF-16 length sits on the 1-byte / 2-byte length-prefix boundary
+pub fn boundary_string() -> BoxedStrategy<String> {
+    (select(vec!["", "a", "ab"]), select(vec!["a", "あ", "𠮷", "é"]), select(vec![1usize, 2, 61, 62, 63, 64, 124, 125, 126, 127, 128, 129, 254, 255, 256]))
+        .prop_map(|(pre, unit, n)| {
+            let per = unit.encode_utf16().count();
+            format!("{}{}", pre, unit.repeat((n / per).max(1)))
+        })
+        .boxed()
+}
+
 #[derive(Clone, Debug)]
 struct CompoundSpec {
     units: Vec<u16>,
@@ -201,7 +224,7 @@ struct CompoundSpec {
 }
 
 fn compound_spec() -> BoxedStrategy<CompoundSpec> {
-    (vec(any::<u16>(), 2..=3), any::<u16>(), any::<u16>(), costs(), any::<u16>(), 0u8..3, 0u8..4, any::<bool>())
+    (prop_oneof![12 => vec(any::<u16>(), 2..=3), 1 => (any::<u16>(), 126usize..=127).prop_map(|(u, n)| vec![u; n])], any::<u16>(), any::<u16>(), costs(), any::<u16>(), 0u8..3, 0u8..4, any::<bool>())
         .prop_map(|(units, left, right, cost, pos, style, with_b, ws)| CompoundSpec { units, left, right, cost, pos, style, with_b, ws })
         .boxed()
 }
@@ -326,7 +349,13 @@ fn build_entries(
         let unit_entries: Vec<Entry> = units.iter().map(|(o, n)| get(*o, *n, &out)).collect();
         // split units must be indexable words for the split to make sense; keep them whatever they are
         let key: String = unit_entries.iter().map(|e| e.key.as_str()).collect();
-        if key.chars().count() > 12 {
+        if units.len() > 3 && (!p.boundaries || key.len() > 600) {
+            continue;
+        }
+        if units.len() <= 3 && !p.boundaries && key.chars().count() > 12 {
+            continue;
+        }
+        if key.len() > 2000 {
             continue;
         }
         let pos = pos_from_str(pos_pool[ix(c.pos, pos_pool.len())]);
@@ -335,7 +364,7 @@ fn build_entries(
             e.cost += 1;
         }
         e.mode = 'C';
-        let style = if p.inline_refs { c.style } else { 0 };
+        let style = if p.inline_refs && units.len() <= 3 { c.style } else { 0 };
         let refs: Vec<WRef> = units
             .iter()
             .zip(unit_entries.iter())
